@@ -449,7 +449,11 @@ impl ThreadPoolState {
             return;
         }
 
+        #[cfg(egglog_verif)]
+        let _verif_wait = VerifWaitGuard::enter();
         let Some(_guard) = InlineScopeHelpGuard::try_enter() else {
+            #[cfg(egglog_verif)]
+            crate::verif::count(crate::verif::BACKUP_SPAWNED);
             let _backup = BackupWorker::spawn(self);
             receive_scope_completion(done);
             return;
@@ -698,6 +702,8 @@ impl<'scope> Scope<'scope> {
     {
         let scope = ScopePtr::new(self);
         let job: ScopedJob<'scope> = Box::new(move || {
+            #[cfg(egglog_verif)]
+            let _verif_job = VerifJobGuard::enter();
             let result = panic::catch_unwind(AssertUnwindSafe(|| {
                 // SAFETY: `Scope::complete_root_and_wait` waits for this job
                 // to call `complete_one` before the stack-allocated scope can
@@ -718,6 +724,8 @@ impl<'scope> Scope<'scope> {
         });
 
         self.state.expect_one();
+        #[cfg(egglog_verif)]
+        crate::verif::count(crate::verif::ENQUEUED);
         #[cfg(egglog_verif)]
         crate::verif::perturb(10);
         // SAFETY: every erased job records completion in the scope state, and
@@ -978,6 +986,45 @@ fn enqueue(sender: &Sender<Job>, job: Job) {
             let job = error.0;
             job();
         }
+    }
+}
+
+/// Verification hook: counts a job as started on creation and finished on drop
+/// (also when the job unwinds).
+#[cfg(egglog_verif)]
+struct VerifJobGuard;
+
+#[cfg(egglog_verif)]
+impl VerifJobGuard {
+    fn enter() -> Self {
+        crate::verif::count(crate::verif::STARTED);
+        VerifJobGuard
+    }
+}
+
+#[cfg(egglog_verif)]
+impl Drop for VerifJobGuard {
+    fn drop(&mut self) {
+        crate::verif::count(crate::verif::FINISHED);
+    }
+}
+
+/// Verification hook: brackets the time a worker spends waiting for a nested scope.
+#[cfg(egglog_verif)]
+struct VerifWaitGuard;
+
+#[cfg(egglog_verif)]
+impl VerifWaitGuard {
+    fn enter() -> Self {
+        crate::verif::count(crate::verif::WORKER_WAIT_ENTER);
+        VerifWaitGuard
+    }
+}
+
+#[cfg(egglog_verif)]
+impl Drop for VerifWaitGuard {
+    fn drop(&mut self) {
+        crate::verif::count(crate::verif::WORKER_WAIT_EXIT);
     }
 }
 
